@@ -23,12 +23,23 @@ def custom_tok(which="custom"):
 
 
 def inject_structure(rng, rows, exp):
-    """duplicate column names and rows cut short (row-wise tables only)."""
+    """duplicate column names (both layouts) and rows cut short (row-wise tables only)."""
     dups, shorts = [], []
-    if exp["transposed"] or not exp["cols"]:
+    if not exp["cols"]:
         return rows, dups, shorts
     rows = copy.deepcopy(rows)
     ncols = len(exp["cols"])
+    if exp["transposed"]:
+        # one line per column: [name, unit, values...]; a duplicated name is repaired exactly as in the row-wise layout
+        if ncols >= 2 and rng.random() < 0.4 and all(len(rows[2 + k]) >= 1 for k in range(ncols)):
+            j = rng.randrange(1, ncols)
+            i = rng.randrange(0, j)
+            rows[2 + j][0] = rows[2 + i][0]
+            dups.append([j, exp["cols"][i]["name"]])
+            if j + 1 < ncols and rng.random() < 0.5:
+                rows[2 + j + 1][0] = exp["cols"][i]["name"] + "_fixed_000"
+                dups.append([j + 1, exp["cols"][i]["name"] + "_fixed_000"])
+        return rows, dups, shorts
     if ncols >= 2 and rng.random() < 0.4:
         j = rng.randrange(1, ncols)
         i = rng.randrange(0, j)
